@@ -26,7 +26,7 @@ ASSUMPTIONS = [
 ]
 N = {"quick": 1500, "thorough": 60000}
 REQUIRE = {"quick": {"complete_true_2x2": 300, "decisive_false": 300, "helper_pt_events": 300,
-                     "helper_seg_events": 300, "sound_Kgtm_events": 100}}
+                     "helper_seg_events": 300, "sound_Kgtm_events": 100, "inrun_pess_events": 300}}
 TIMEOUT = {"quick": 900, "thorough": 3600}
 
 THETAS = [3, 10, 20, 30, 45, 60, 75, 89, 90, 91, 105, 120, 135, 150, 170, 177]
@@ -184,8 +184,25 @@ def helper_seg_case(mon, rng):
         mon.violation("line_seg:wrong-point", f"returned {out}, expected {want}", case)
 
 
+def inrun(mon, rng):
+    """pessimistic sets computed inside real VOGP / epsilon-PAL runs (stub posteriors) vs the oracle"""
+    from vmon import runchecks, runs
+
+    variant = "VOGP" if rng.random() < 0.7 else "EpsilonPAL"
+    case, order = runs.make_case(rng, variant, m=2, K=int(rng.integers(2, 8)), cone_families=["theta", "random", "orthant"],
+                                 contraction=float(rng.choice([2, 8])))
+    case["max_rounds"] = 40
+    tr = runs.run_case(case, order, mon, max_extra_steps=0)
+    mon.count("inrun_runs")
+    for st in tr.steps:
+        if st["crash"] is None:
+            runchecks.check_pess(mon, tr, st)
+
+
 def shard(mon, tier, rng, shard_no, nshards):
     n = max(6, N[tier] // nshards)
+    for _ in range(3 if tier == "quick" else 60):
+        inrun(mon, rng)
     for i in range(n):
         r = rng.random()
         if r < 0.6:
@@ -200,6 +217,15 @@ def shard(mon, tier, rng, shard_no, nshards):
 
 def replay(mon, rec):
     c = rec["case"]
+    if "variant" in c:
+        from vmon import runchecks, runs
+
+        def chk(mon, tr):
+            for st in tr.steps:
+                if st["crash"] is None:
+                    runchecks.check_pess(mon, tr, st)
+        runs.replay_runs(mon, rec, chk)
+        return
     if c.get("kind") != "pess":
         print("replay supports pess cases only; case:", c)
         return
